@@ -1,6 +1,11 @@
 package hostcall
 
-import "sync"
+import (
+	"fmt"
+	"sort"
+	"strings"
+	"sync"
+)
 
 // F is stateless: locals, a loop, a closure, a composite, a map and a deferred
 // function altering the named result.
@@ -37,6 +42,38 @@ func sum(xs ...int) int {
 		t += x
 	}
 	return t
+}
+
+type byLast []int
+
+func (b byLast) Len() int           { return len(b) }
+func (b byLast) Less(i, j int) bool { return b[i]%10 < b[j]%10 || (b[i]%10 == b[j]%10 && b[i] < b[j]) }
+func (b byLast) Swap(i, j int)      { b[i], b[j] = b[j], b[i] }
+
+type sink struct{ parts []string }
+
+func (s *sink) Write(p []byte) (int, error) {
+	s.parts = append(s.parts, string(p))
+	return len(p), nil
+}
+
+// Sorted hands an interpreted sort.Interface to the standard library.
+func Sorted(x int) int {
+	b := byLast{x + 17, x + 3, x + 28, x + 5, x + 11}
+	sort.Sort(b)
+	r := 0
+	for _, v := range b {
+		r = r*7 + v
+	}
+	return r
+}
+
+// Emit hands an interpreted io.Writer to the standard library.
+func Emit(x int) int {
+	w := &sink{}
+	fmt.Fprintf(w, "<%d>", x)
+	fmt.Fprintf(w, "[%d]", x*2)
+	return len(strings.Join(w.parts, "")) + x
 }
 
 // MV is a method value stored in a variable.
